@@ -23,6 +23,8 @@ def exclC07 : List (String × String) := [
   ("numpy.linalg.lstsq", "degree:1:1:c:1/c:2"),
   -- np.histogram2d(density=True, weights=w) multiplies the (weight-normalised) density by w.units
   ("numpy.histogram2d", "degree:0:2:c:1/c:0"),
+  -- … and so does np.histogram (same code)
+  ("numpy.histogram", "degree:0:1:c:1/c:0"),
   -- np.intersect1d(return_indices=True) returns the common values as a bare array
   ("numpy.intersect1d", "degree:0:0:c:0/c:1"),
   -- np.prod: an `initial` that carries units is one more factor; a masked product has no single degree
